@@ -57,15 +57,17 @@ impl SO2StateSpace {
     pub fn new(bounds_option: Option<(f64, f64)>) -> Result<Self, StateSpaceError> {
         let bounds = bounds_option.unwrap_or((-PI, PI));
 
-        if bounds.0 >= bounds.1 {
+        // TODO: Do we want to enforce a boundary here if it is above or below +/- PI?
+        let clamped_bounds = (bounds.0.max(-PI), bounds.1.min(PI));
+
+        // Validate what is stored: an interval lying outside [-pi, pi] (e.g. (4, 5)) is empty after
+        // clamping, and a NaN bound must not pass either.
+        if !(bounds.0 < bounds.1) || !(clamped_bounds.0 < clamped_bounds.1) {
             return Err(StateSpaceError::InvalidBound {
                 lower: bounds.0,
                 upper: bounds.1,
             });
         }
-
-        // TODO: Do we want to enforce a boundary here if it is above or below +/- PI?
-        let clamped_bounds = (bounds.0.max(-PI), bounds.1.min(PI));
 
         Ok(Self {
             bounds: clamped_bounds,
